@@ -36,7 +36,13 @@ def standard_list(sc):
                 L.append((('reflect', port, code), lambda port=port, code=code: sc.add_reflect(port, code)))
     for i in range(1, p + 1):
         for j in range(i + 1, p + 1):
-            L.append((('through', i, j), lambda i=i, j=j: sc.add_through(i, j)))
+            if sc.typ not in ('T16', 'U16') and p > 2 and getattr(sc, 'mixed_shapes', False) and ab_rng.random() < 0.6:
+                # the 2x2 block of the pair only (abbreviated rows and columns, always in port order), the pair named in either order
+                a_, b_ = (i, j) if ab_rng.random() < 0.5 else (j, i)
+                L.append((('through', i, j, 'ab'), lambda a_=a_, b_=b_: sc.add_through(a_, b_, abbreviated='both')))
+            else:
+                a_, b_ = (i, j) if ab_rng is None or ab_rng.random() < 0.7 else (j, i)
+                L.append((('through', i, j), lambda a_=a_, b_=b_: sc.add_through(a_, b_)))
             if sc.typ in ('T16', 'U16'):
                 for c1, c2 in ((calsim.SHORT, calsim.OPEN), (calsim.OPEN, calsim.SHORT), (calsim.MATCH, calsim.SHORT), (calsim.SHORT, calsim.MATCH),
                                (calsim.OPEN, calsim.MATCH), (calsim.MATCH, calsim.OPEN)):
@@ -70,6 +76,10 @@ def jacobian_rank(sc, descs):
         m = np.zeros((p, p), bool)
         if d[0] == 'reflect' and len(d) > 3:
             m[ports[0], ports[0]] = True
+        elif d[0] == 'through' and len(d) > 3:
+            for i in ports:
+                for j in ports:
+                    m[i, j] = True
         elif sc.typ in ('T16', 'U16'):
             # every cell of the 16-term equations involves every S entry: only standards that specify the
             # whole S matrix are counted (conservative: fewer sets are called determining)
@@ -164,11 +174,11 @@ def run(chk):
     reps = (2 if quick else 12) * (3 if broken else 1)
     for rep_ in range(reps):
         for typ in calsim.TYPES:
-            for n in ([1, 2] if quick else [1, 2, 3]):
+            for n in (([1, 2] + ([3] if rep_ == 0 and typ in ('T8', 'U8', 'TE10', 'UE14') else [])) if quick else [1, 2, 3]):
                 if typ in ('T16', 'U16') and n > 2:
                     continue
                 sc = calsim.Scenario(rng, typ, n, n, 1, form=rng.choice(['m', 'ab'])).begin()
-                sc.mixed_shapes = rng.random() < 0.5           # full and abbreviated measurement matrices mixed
+                sc.mixed_shapes = rng.random() < 0.5 or (quick and n == 3)          # full and abbreviated measurement matrices mixed
                 L = standard_list(sc)
                 rng.shuffle(L)
                 sixteen = typ in ('T16', 'U16')
@@ -179,7 +189,7 @@ def run(chk):
                     L.sort(key=lambda e: 1 if e is firstd else (0 if e[0][0] == 'through' else (2 if e[0][0] == 'reflect' else 3)))
                 elif len(L) > 14:
                     L = L[:14] if rng.random() < 0.3 else L
-                full_rank = 4 * n * n - 1 if sixteen else jacobian_rank(sc, [(d[0], d[1], d[2]) if d[0] == 'reflect' else d for d, _ in L])
+                full_rank = 4 * n * n - 1 if sixteen else jacobian_rank(sc, [(d[0], d[1], d[2]) if d[0] in ('reflect', 'through') else d for d, _ in L])
                 if full_rank == 0:
                     continue
                 dut = sc.random_dut()
@@ -198,6 +208,15 @@ def run(chk):
                         det = rk == full_rank and margin > 1e-4
                     else:
                         det = jacobian_rank(sc, descs) == full_rank
+                        if det and typ in ('TE10', 'UE10', 'UE14', 'E12') and n > 1:
+                            # the leakage terms live outside the linear system: every off-diagonal cell needs a sample without a
+                            # signal path - a fully measured standard with exactly one of the two ports in it (Model/Leakage.lean);
+                            # a cell never sampled that way is silently taken as leakage-free (vnacal_new(3)): nothing is claimed then
+                            for a_ in range(n):
+                                for b_ in range(n):
+                                    if a_ != b_ and not any(len(d_) == 3 and ((a_ in ps_) != (b_ in ps_)) for d_, ps_ in
+                                                            [(d_, ([d_[1] - 1] if d_[0] == 'reflect' else [d_[1] - 1, d_[2] - 1])) for d_ in descs]):
+                                        det = False
                     iapply = None
                     if det:
                         sc.lines.append('cal add_calibration %d %s %d' % (sc.c, vlib.hexbytes(b'k%d' % k), sc.n))
